@@ -37,6 +37,7 @@ class SimRLock:
         if me is None:  # not under simulation (e.g. harness thread): behave like an uncontended lock
             self.count += 1
             return True
+        s.sync_point(me, "acquire")  # a scheduling point of its own: between whatever preceded and taking the lock
         while True:
             if self.owner is None or self.owner is me:
                 self.owner = me
@@ -54,6 +55,8 @@ class SimRLock:
         if self.count == 0:
             self.owner = None
             self.sched.unblock(self)
+            if me is not None:
+                self.sched.sync_point(me, "release")  # right after the critical section
 
     __enter__ = acquire
 
@@ -106,6 +109,10 @@ class Sched:
         self.site_filter = site_filter
         self.sites_at_switch = []
         self.trace_sites = None  # optional: list to collect (thread, site) per step (for coverage measures)
+        self._site_shape = (not self.replaying) and self.policy.get("shape") == "site"
+        self._visits = {}
+        self._at_target = False
+        self._at_sync = False
         self._ident_map = {}
 
     # -- construction -----------------------------------------------------------
@@ -178,22 +185,40 @@ class Sched:
         return [t for t in self.threads if not t.done and t.blocked_on is None and t is not exclude]
 
     def point(self, frame):
-        me = self.cur
+        eligible = self.site_filter is None or bool(self.site_filter(frame))
+        self._step(self.cur, lambda: short_site(frame.f_code, frame.f_lineno), eligible, False)
+
+    def sync_point(self, me, kind):
+        """Lock acquisition / release by a simulated thread: a step of its own (recorded and replayed like a line)."""
+        if me is None or me.done or me is not self.cur or self.deadlock or self.capped:
+            return
+
+        def site():
+            f = sys._getframe(3)
+            while f is not None and not is_lib_code(f.f_code):
+                f = f.f_back
+            return f"sync:{kind}@" + (short_site(f.f_code, f.f_lineno) if f is not None else "?")
+        self._step(me, site, True, True)
+
+    def _step(self, me, site_fn, eligible, is_sync):
         self.step += 1
         me.steps += 1
+        self._at_sync = is_sync
         if self.trace_sites is not None:
-            self.trace_sites.append((me.idx, short_site(frame.f_code, frame.f_lineno)))
+            self.trace_sites.append((me.idx, site_fn()))
+        if self._site_shape:
+            # "thread t at its n-th visit of this line": stays meaningful however the other threads interleave
+            key = (me.idx, site_fn())
+            n = self._visits[key] = self._visits.get(key, 0) + 1
+            tg = self.policy["targets"]
+            self._at_target = (key[0], key[1], n) in tg or (None, key[1], n) in tg
         if self.step > self.step_cap:
             self.capped = True
         if self.capped or self.deadlock:
             raise SimStepCap() if self.capped else SimDeadlock()
-        if self.site_filter is not None and not self.site_filter(frame):
-            eligible = False
-        else:
-            eligible = True
         target = self._decide_preempt(me, eligible)
         if target is not None and target is not me:
-            self.sites_at_switch.append(short_site(frame.f_code, frame.f_lineno))
+            self.sites_at_switch.append(site_fn())
             self._switch(me, target, "preempt")
 
     def _decide_preempt(self, me, eligible):
@@ -214,6 +239,15 @@ class Sched:
             return None
         if shape == "bounded":
             if self.step in pol["preempt_set"]:
+                return cands[self.rng.randrange(len(cands))]
+            return None
+        if shape == "sync":
+            # CHESS-style: pre-empt only around lock operations (before an acquisition, right after a release)
+            if self._at_sync and self.rng.random() < pol["p"]:
+                return cands[self.rng.randrange(len(cands))]
+            return None
+        if shape == "site":
+            if self._at_target:
                 return cands[self.rng.randrange(len(cands))]
             return None
         if shape == "random":
@@ -309,6 +343,10 @@ class Sched:
         target.go.release()
 
 
+ANCHOR_PREFIXES = ("utils/mutation.py:__new__", "utils/mutation.py:__enter__", "utils/mutation.py:__exit__",
+                   "utils/mutation.py:protect_via_deepcopy", "spec_class.py:")
+
+
 def make_policy(rng, shape, seq_steps, hot_steps=None, n_threads=2):
     """
     Draw a schedule policy.  seq_steps: estimated number of steps of the whole run;
@@ -323,6 +361,27 @@ def make_policy(rng, shape, seq_steps, hot_steps=None, n_threads=2):
             else:
                 steps.add(rng.randint(1, max(1, seq_steps)))
         return {"shape": "bounded", "preempt_set": steps, "d": d, "rng": rng}
+    if shape == "site":
+        # hot_steps / trace: the sequential trace [(thread, site), ...]; targets are (thread, site, n-th visit by that thread)
+        trace = hot_steps or []
+        d = rng.choice([1, 2, 2, 3, 3, 4])
+        visits, entries = {}, []
+        for t, site in trace:
+            visits[(t, site)] = visits.get((t, site), 0) + 1
+            entries.append((t, site, visits[(t, site)]))
+        anchored = [e for e in entries if e[1].startswith(ANCHOR_PREFIXES)]
+        syncs = [e for e in entries if e[1].startswith("sync:")]
+        targets = set()
+        for _ in range(d):
+            u = rng.random()
+            pool = syncs if (syncs and u < 0.45) else (anchored if (anchored and u < 0.75) else entries)
+            if pool:
+                t, site, n = pool[rng.randrange(len(pool))]
+                # any thread: a thread that ran second in the sequential trace may never have reached this line there
+                targets.add((None if rng.random() < 0.5 else t, site, n))
+        return {"shape": "site", "targets": targets, "d": d, "rng": rng}
+    if shape == "sync":
+        return {"shape": "sync", "p": rng.choice([0.15, 0.3, 0.5]), "rng": rng}
     if shape == "random":
         p = rng.choice([0.002, 0.02, 0.2])
         return {"shape": "random", "p": p, "rng": rng}
@@ -339,6 +398,8 @@ def policy_to_json(pol):
     for k in ("preempt_set", "change_set"):
         if k in out:
             out[k] = sorted(out[k])
+    if "targets" in out:
+        out["targets"] = sorted((list(t) for t in out["targets"]), key=repr)
     if "prio" in out:
         out["prio"] = {str(k): v for k, v in out["prio"].items()}
     return out
